@@ -31,13 +31,13 @@ def value_cases(ctx):
                    [rnd.randrange(2**64, R) for _ in range(20)] + [P + 2**32 - 1, 2**64 - 2**32 + 2, 2**63, 2**65, 2**128, 2**253]
     for x in rc_vals:
         for mode in ("native", "plain", "commit"):
-            for st in ("honest", "generic", "hi-1", "hi+1", "modp", "wrap"):
+            for st in ("honest", "generic", "hi-1", "hi+1", "modp", "wrap", "lo-all"):
                 if mode == "commit" and not thorough and st in ("hi+1", "modp"):
                     continue
                 cases.append(dict(sys="engine", mode=mode, kind="rangecheck", bits=0, x=str(x), strat=st))
         for sysn in ("r1cs", "scs"):
             for mode in ("commit", "plain"):
-                for st in ("generic", "hi-1", "wrap"):
+                for st in ("generic", "hi-1", "wrap", "lo-all"):
                     cases.append(dict(sys=sysn, mode=mode, kind="rangecheck", bits=0, x=str(x), strat=st))
         # bit-decomposition mechanism: gnark's digit hint with everything in digit 0 (recomposes, is not a bit)
         cases.append(dict(sys="engine", mode="plain", kind="rangecheck", bits=0, x=str(x), strat="nonbool"))
